@@ -775,6 +775,17 @@ func (ie *initEval) evalKnownCall(x *ast.CallExpr, t types.Type) ([]string, bool
 		return nil, false
 	}
 	switch pn.Imported().Path() + "." + se.Sel.Name {
+	case "reflect.TypeOf":
+		// reflect.TypeOf(XMsg{}) in the table msgsTypes: the identity the reflect model gives the type of a
+		// Value that views a whole message (rtypeMsgBase + message number, see (reflect.Value).Type)
+		if len(x.Args) == 1 {
+			if tv, ok := info.Types[x.Args[0]]; ok && tv.Type != nil {
+				if num, isMsg := ie.w.msgNumOfType(tv.Type); isMsg {
+					return []string{bvLit(64, uint64(ie.w.tags.tagNamed("extern:reflect.rtype"))), bvLit(64, uint64(rtypeMsgBase+num))}, true
+				}
+			}
+		}
+		return nil, false
 	case "time.Date":
 		if len(x.Args) != 8 {
 			return nil, false
